@@ -15,7 +15,7 @@ from typing import Any, Dict, FrozenSet, List, Optional, Set, Tuple
 
 from ..astq import assignments, calls, exc_class_of_raise, params, raises_in, stmts
 from ..callgraph import fkey
-from ..cfg import CFG, cond_atoms, flatten_conj, path_conditions
+from ..cfg import always_exits, CFG, cond_atoms, flatten_conj, path_conditions
 from ..regexlang import ambiguity
 from ..report import Check
 from ..scanprog import Facts, LoopProgress, ScanModel
@@ -441,11 +441,41 @@ def s2_subscripts(chk: Check, proj: Project) -> None:
             okk = False
             why = ""
             if idx == "index":
-                okk = any((t == "is_at_end()" and not pol) or (t.startswith("index >= ") and not pol) or (t.startswith("index < ") and pol) for t, pol in atoms)
-                # character scanners re-test in the enclosing while
-                for a in ancestors(sub):
-                    if isinstance(a, ast.While) and (norm(a.test) == "not is_at_end()" or norm(a.test).startswith("index < ")):
-                        okk = True
+                # the not-at-end fact must still be FRESH: walking backwards from the read, the nearest event is a bounds test
+                # (an exiting `if is_at_end()` before it, or an enclosing if / while that tests it), not a call that consumes text
+                CONSUMERS = ("taken_n", "take_char", "take_until", "take_while", "take_until_any", "add_token", "extract_spread_token")
+
+                def _is_bounds_test(t: ast.expr, want_true_branch: bool) -> bool:
+                    for e_, pol_ in flatten_conj([(t, want_true_branch)]):
+                        tx = norm(e_)
+                        if (tx == "is_at_end()" and not pol_) or (tx.startswith("index >= ") and not pol_) or (tx.startswith("index < ") and pol_):
+                            return True
+                    return False
+
+                okk = False
+                node_: ast.AST = sub
+                decided = False
+                while not decided and not isinstance(node_, (ast.FunctionDef, ast.AsyncFunctionDef)):
+                    par_ = parent(node_)
+                    if par_ is None:
+                        break
+                    for fld in ("body", "orelse", "finalbody"):
+                        blk = getattr(par_, fld, None)
+                        if isinstance(blk, list) and node_ in blk:
+                            for prev in reversed(blk[: blk.index(node_)]):
+                                if isinstance(prev, ast.If) and always_exits(prev.body) and not prev.orelse and _is_bounds_test(prev.test, False):
+                                    okk, decided = True, True
+                                    break
+                                if any((isinstance(c_, ast.Call) and last_attr(c_.func) in CONSUMERS) or (isinstance(c_, ast.AugAssign) and norm(c_.target) == "index") for c_ in ast.walk(prev)):
+                                    okk, decided = False, True
+                                    break
+                            if not decided and isinstance(par_, (ast.If, ast.While)):
+                                if _is_bounds_test(par_.test, fld == "body"):
+                                    okk, decided = True, True
+                                elif any(isinstance(c_, ast.Call) and last_attr(c_.func) in CONSUMERS for c_ in ast.walk(par_.test)):
+                                    okk, decided = False, True
+                            break
+                    node_ = par_
                 why = "`not is_at_end()` / `index < length`"
             elif idx.startswith("index + "):
                 off = idx[len("index + "):]
